@@ -385,7 +385,11 @@ def check_c18(pid, tier, seed, replay):
     try:
         if replay:
             lines = vlib.read_lines(os.path.join(replay, "trace.ndjson"))
-            r = validate_lines(w, "replay", "TraceGenesis", c18_cfg(set()), lines)
+            kn = set()
+            if os.path.exists(os.path.join(replay, "known.json")):
+                with open(os.path.join(replay, "known.json")) as f:
+                    kn = set(json.load(f))
+            r = validate_lines(w, "replay", "TraceGenesis", c18_cfg(kn), lines)
             if r["err"]:
                 log("replay: rejected at line %d: %s / %s" % r["err"])
                 log("VIOLATION property=%s replay=%s" % (pid, replay))
@@ -442,6 +446,8 @@ def check_c18(pid, tier, seed, replay):
                                   % (sig, seed, tier, json.dumps(e.get("hist", {})), pid))
             with open(os.path.join(rp, "tlc.out"), "w") as f:
                 f.write(r["out"][-20000:])
+            with open(os.path.join(rp, "known.json"), "w") as f:
+                json.dump(sorted(known), f)   # deviations tolerated when this law broke: the replay re-checks under the same ones
             v.violation(sig, rp, "history %s, round trip %s at height %s%s" % (e.get("tid"), e.get("k"), e.get("h"), "" if e.get("failed", "none") == "none" else ": " + e["failed"]))
             rejected += 1
             if sig.startswith("Export/") and sig not in known:
@@ -470,14 +476,28 @@ def check_c18(pid, tier, seed, replay):
                          % (sz["blocks"], sz["every"]))
         v.cov["samples"] = [json.loads(x).get("hist") for x in lines if '"ev":"RoundTrip"' in x][:3]
         # binding self-test under the deviations found (so that only the corrupted field can be the reason)
-        first = next(t for t in traces if any('"failed":"none"' in x for x in t))
         tests = []
-        for what, bad in c18_corruptions(first):
-            rs = validate_lines(w, "selftest%d" % len(tests), "TraceGenesis", c18_cfg(known), bad)
-            if rs["err"] is None:
-                raise Infra("binding self-test failed (binding vacuous): corrupted %s was accepted" % what)
-            tests.append("%s -> %s/%s" % (what, rs["err"][1], rs["err"][2]))
-            log("binding self-test: corrupted %s rejected with %s/%s" % (what, rs["err"][1], rs["err"][2]))
+        try:
+            cands = [t for t in traces if any('"failed":"none"' in x for x in t)]
+            corr = None
+            for t in cands[:20]:
+                try:
+                    corr = c18_corruptions(t)
+                    break
+                except Infra:
+                    continue
+            if corr is None:
+                raise Infra("self-test: no round-trip record with contract storage to corrupt")
+            for what, bad in corr:
+                rs = validate_lines(w, "selftest%d" % len(tests), "TraceGenesis", c18_cfg(known), bad)
+                if rs["err"] is None:
+                    raise Infra("binding self-test failed (binding vacuous): corrupted %s was accepted" % what)
+                tests.append("%s -> %s/%s" % (what, rs["err"][1], rs["err"][2]))
+                log("binding self-test: corrupted %s rejected with %s/%s" % (what, rs["err"][1], rs["err"][2]))
+        except Infra as ex:
+            if not [x for x in v.violations if not x[0].startswith("Export/")]:
+                raise
+            log("binding self-test skipped on a tree that already breaks other laws: %s" % ex)
         v.cov["selftest"] = tests
         need = ["with.contract-storage", "with.zero-valued-slots", "with.codeless-storage", "with.erc20-precompiles", "with.allowances", "with.proofs"]
         missing = [k for k in need if not cov_total.get(k)]
